@@ -88,6 +88,7 @@ GNext ==
           /\ script' = Append(script, [e |-> "Activate", who |-> WhoA(a)])
     \/ \E n \in PreSet :
           /\ Last => n = 0
+          /\ n > 0 => nb <= 1                     \* oracle-originated signings only after short blocks (keeps the walk cheap)
           /\ EndBlock(n)
           /\ nb' = 0
           /\ script' = Append(script, [e |-> "EndBlock", npre |-> n])
